@@ -51,3 +51,29 @@ Theorem C09_encode_decode : forall t v bs,
   forall c : ctree, exists c', flat_decode t c bs = OK (v, c').
 Proof. exact C09_encode_decode_lemma. Qed.
 Print Assumptions C09_encode_decode.
+
+(* ---- Encode()/Decode() of the library's basic values, and codec.Sum ---- *)
+From Ztyp Require Import Extras ExtrasProofs.
+
+Theorem C09_basic_encode :
+  forall t v, (exists w, t = TUint w) \/ t = TBool -> has_type v t = true ->
+  basic_encode t v = OK (spec_ser t v).
+Proof. exact basic_encode_spec. Qed.
+Print Assumptions C09_basic_encode.
+
+Theorem C09_basic_decode_encode :
+  forall t v, wf_ty t = true -> ((exists w, t = TUint w) \/ t = TBool) -> has_type v t = true ->
+  basic_decode t (spec_ser t v) = OK v.
+Proof. exact basic_decode_encode. Qed.
+Print Assumptions C09_basic_decode_encode.
+
+(* Decode accepts only strings of exactly the value's size, and only canonical bools *)
+Theorem C09_basic_decode_exact :
+  forall t bs v, wf_ty t = true -> basic_decode t bs = OK v ->
+  lenN bs = spec_fixed_len t /\ has_type v t = true /\ spec_ser t v = bs.
+Proof. exact basic_decode_exact. Qed.
+Print Assumptions C09_basic_decode_exact.
+
+Theorem C09_codec_sum : forall lens, sumN lens < 2 ^ 64 -> codec_sum lens = sumN lens.
+Proof. exact codec_sum_spec. Qed.
+Print Assumptions C09_codec_sum.
